@@ -58,6 +58,25 @@ cs = cs.replace("""func (pi ConfigSnapshot) BucketUUID() string {
 		return "verif-replay-bucket"
 	}
 """)
+cs = cs.replace("""func (pi ConfigSnapshot) NumReplicas() (int, error) {
+""", """func (pi ConfigSnapshot) NumReplicas() (int, error) {
+	if VerifNumReplicas != nil {
+		return VerifNumReplicas()
+	}
+""")
+cs = cs.replace("""func (pi ConfigSnapshot) VbucketToServer(vbID uint16, replicaIdx uint32) (int, error) {
+""", """func (pi ConfigSnapshot) VbucketToServer(vbID uint16, replicaIdx uint32) (int, error) {
+	if VerifVbucketToServer != nil {
+		return VerifVbucketToServer(vbID, replicaIdx)
+	}
+""")
+cs += """
+// hooks used only by /verif replays (injected by -overlay)
+var (
+	VerifNumReplicas     func() (int, error)
+	VerifVbucketToServer func(vbID uint16, replicaIdx uint32) (int, error)
+)
+"""
 p = os.path.join(outdir, "configsnapshot.go"); open(p, "w").write(cs); ov["Replace"][os.path.join(G, "configsnapshot.go")] = p
 ag = open(os.path.join(G, "agent.go")).read()
 ag = ag.replace("""	return agent.kvMux.WaitForConfigSnapshot(deadline, cb)""", """	if VerifWaitForConfigSnapshot != nil {
@@ -73,9 +92,11 @@ p = os.path.join(outdir, "agent.go"); open(p, "w").write(ag); ov["Replace"][os.p
 ops = open(os.path.join(G, "agent_ops.go")).read()
 for meth, args in [("Get", "opts, cb"), ("Delete", "opts, cb"), ("Set", "opts, cb"), ("LookupIn", "opts, cb"), ("MutateIn", "opts, cb")]:
     ops = ops.replace("\treturn agent.crud.%s(%s)\n}" % (meth, args), "\tif Verif%s != nil {\n\t\treturn Verif%s(%s)\n\t}\n\treturn agent.crud.%s(%s)\n}" % (meth, meth, args, meth, args), 1)
+ops = ops.replace("\treturn agent.observe.ObserveVb(opts, cb)\n}", "\tif VerifObserveVb != nil {\n\t\treturn VerifObserveVb(opts, cb)\n\t}\n\treturn agent.observe.ObserveVb(opts, cb)\n}", 1)
 ops += """
 // hooks used only by /verif replays (injected by -overlay)
 var (
+	VerifObserveVb func(opts ObserveVbOptions, cb ObserveVbCallback) (PendingOp, error)
 	VerifGet      func(opts GetOptions, cb GetCallback) (PendingOp, error)
 	VerifDelete   func(opts DeleteOptions, cb DeleteCallback) (PendingOp, error)
 	VerifSet      func(opts SetOptions, cb StoreCallback) (PendingOp, error)
